@@ -28,7 +28,7 @@ from ._wcommon import (ASSUMPTIONS, COMPONENTS_REAL, COMPONENTS_STUB, Hist, Viol
 from ._wcommon import abstract_states  # noqa: F401,E402
 
 ID = "C08"
-RUNS = {"quick": 6000, "thorough": 200000}
+RUNS = {"quick": 8000, "thorough": 200000}
 BUDGET_S = {"quick": 60, "thorough": 900}
 RULE = ("seeded task signatures (positional / keyword-only / defaulted / un-annotated / Any / annotated int, float, str, bool, List[int], "
         "Dict[str,int], Optional[int], pydantic model, dataclass / dependency parameters in any legal order), argument splits into "
